@@ -379,7 +379,15 @@ def run(ctx):
     from .c05b import run_r4
     r4 = ctx.rule("C05-R4", "panic-site inventory: every panic-capable construct in parser-reachable code is discharged or listed", floor=40)
     run_r4(ctx, r4, tn)
-    ctx.assume("R3: the column computation position - line_start + 1 is discharged by C08-R1/R2 (mark and line-start discipline)")
+    # R3: the unchecked column computation `position - line_start + 1` is safe exactly when the position handed to
+    # give_up_at is the cursor or a mark set on the current line, and line_start is never ahead: the C08 rules
+    from .c08 import run_r1 as c08_r1, run_r2 as c08_r2, run_r4 as c08_r4
+    r3a = ctx.rule("C05-R3a", "column computation: mark() only after set_mark() on the current line, not stale (shared with C08-R1)", floor=8)
+    c08_r1(ctx, r3a)
+    r3b = ctx.rule("C05-R3b", "column computation: line_start never ahead of the cursor when an error is raised (shared with C08-R2)", floor=11)
+    c08_r2(ctx, r3b)
+    r3c = ctx.rule("C05-R3c", "column computation: errors only at the cursor or the mark (shared with C08-R4)", floor=10)
+    c08_r4(ctx, r3c)
     ctx.assume("library callees that are not in the classification table are assumed not to panic (counted in the evidence)")
     ctx.assume("wall-clock time, heap constants, allocator aborts and termination of Renumber::transfer on cyclic graphs are not decided")
     return "other", "no recursion; taint + guard rules for arithmetic and allocation; loop progress; panic-site inventory", {}
